@@ -3,6 +3,7 @@ package netconf
 import (
 	"encoding/xml"
 	"errors"
+	"github.com/scrapli/scrapligo/util/verifhook"
 	"regexp"
 	"sync"
 
@@ -255,7 +256,9 @@ func (d *Driver) Close() error {
 		d.Transport.Args.Port,
 	)
 
+	verifhook.Point("nc.close.done-send")
 	d.done <- true
+	verifhook.Point("nc.close.done-sent")
 
 	err := d.Channel.Close()
 	if err != nil {
